@@ -64,12 +64,13 @@ Definition new_binding (c : route_cfg) (q ex key : bytes) (args : option table) 
   match args with
   | None => mk MatchAll                       (* zero value of MatchType *)
   | Some t =>
+      let mode s := if bytes_eqb s (c_all c) then mk MatchAll
+                    else if bytes_eqb s (c_any c) then mk MatchAny
+                    else None in
       match lookup (c_x_match c) t with
-      | Some (VStr s) =>
-          if bytes_eqb s (c_all c) then mk MatchAll
-          else if bytes_eqb s (c_any c) then mk MatchAny
-          else None
-      | Some _ => None                        (* xmatch == "all" is false for every non-string dynamic type *)
+      | Some (VStr s) => mode s
+      | Some (VBytes s) => if c_xmatch_bytes c then mode s else None   (* xmatch = string(raw) *)
+      | Some _ => None                        (* xmatch == "all" is false for every other dynamic type *)
       | None => mk (if c_default_all c then MatchAll else MatchAny)
       end
   end.
